@@ -42,4 +42,7 @@ NoDivZero == ~divzero
 Terminates == iter <= 4 /\ pc # "failsafe"          \* in exact arithmetic the failsafe never decides
 AcceptIffNonEmpty == Done => (pc = "accept" <=> abs.cls \in {"accept", "free"})
 ResultIsInsidePart == (pc = "accept") => (PEq(a, abs.p[1]) /\ PEq(b, abs.p[2]))     \* orientation kept
+(* ---- liveness: "no input makes it loop" - under weak fairness the machine reaches a decision ---- *)
+FairSpec == Spec /\ WF_vars(Step)
+EventuallyDecides == <>(pc # "run")
 =============================================================================
